@@ -72,6 +72,10 @@ def gen_ops(rng, n):
             o = rng.choice(again)
             ops.append(['K', o[1], o[2], o[3], 1])
             continue
+        if rng.random() < 0.12:
+            # ticket load: common KeyY `index` into slot 0x3D (dev engines: the fixed dev key for index 0), title key decrypted into 0x40
+            ops.append(['T', rng.randrange(6), pyenv.rbytes(rng, 16).hex(), pyenv.rbytes(rng, 8).hex(), rng.randrange(2)])
+            continue
         if c < 4:
             ops.append(['K', rng.randrange(2), slot, gen_key(rng), int(rng.random() < 0.6)])
         elif c < 6:
@@ -103,6 +107,18 @@ def init_ops(e):
 
 
 def apply_impl(e, op):
+    if op[0] == 'T':
+        from pyctr.crypto.engine import KeyslotMissingError
+        try:
+            if op[4]:
+                t = bytearray(0x2AC)
+                t[0x1BF:0x1CF], t[0x1DC:0x1E4], t[0x1F1] = bytes.fromhex(op[2]), bytes.fromhex(op[3]), op[1]
+                e.load_from_ticket(bytes(t))
+            else:
+                e.load_encrypted_titlekey(bytes.fromhex(op[2]), op[1], bytes.fromhex(op[3]) if op[1] % 2 else op[3])
+        except KeyslotMissingError:
+            pass       # slot 0x3D without a normal key: the specification says so too (checked through the state)
+        return
     if op[0] == 'K':
         e.set_keyslot('x' if op[1] else 'y', op[2], op[3], update_normal_key=bool(op[4]))
     elif op[0] == 'B':
@@ -132,10 +148,28 @@ def parse_dump(line):
     return out
 
 
-def spec_machine(init, ops):
-    """the property read literally: an independent Python oracle"""
+def spec_machine(init, ops, dev=False, expanded=None):
+    """the property read literally: an independent Python oracle; ticket loads are also written out as primitive operations
+    (`expanded`), which is what the Coq model is given"""
+    from Cryptodome.Cipher import AES
+    from ..builders import pack as P
     st = [list(t) for t in init]
     for op in ops:
+        if op[0] == 'T':
+            if dev and op[1] == 0:
+                prim = [['N', 0x3D, P.DEV_COMMON_KEY_0.hex()]]
+            else:
+                prim = [['K', 0, 0x3D, P.COMMON_KEY_Y[op[1]], 1]]
+            st = [list(t) for t in spec_machine([tuple(t) for t in st], prim)]
+            if st[0x3D][2] is not None:
+                tk = AES.new(st[0x3D][2], AES.MODE_CBC, bytes.fromhex(op[3]) + bytes(8)).decrypt(bytes.fromhex(op[2]))
+                prim.append(['N', 0x40, tk.hex()])
+                st[0x40][2] = tk
+            if expanded is not None:
+                expanded.extend(prim)
+            continue
+        if expanded is not None:
+            expanded.append(op)
         if op[0] in ('K', 'B'):
             slot = op[2]
             key = op[3] if op[0] == 'K' else int.from_bytes(bytes.fromhex(op[3]), 'big' if slot > 3 else 'little')
@@ -181,8 +215,9 @@ def engine_case(ctx, mr, rng, case):
     except Exception as ex:  # no key operation may raise
         err = pyenv.errname(ex)
     got = dump_engine(e)
-    model = parse_dump(mr.ask('engine ' + ' '.join(op_line(o) for o in init + ops)))
-    spec = spec_machine(init_dump, ops)
+    prim = []
+    spec = spec_machine(init_dump, ops, dev, prim)
+    model = parse_dump(mr.ask('engine ' + ' '.join(op_line(o) for o in init + prim)))
     ctx.stat('engine_histories')
     if err:
         ctx.diff('oracle', 'engine-op-raises:' + err, case, 'no exception', err, f'key operation raised {err}')
@@ -248,10 +283,21 @@ def engine_case(ctx, mr, rng, case):
         return
     if dump_engine(c) != got:
         ctx.diff('oracle', 'clone-state', case, 'same key state', 'different', 'clone does not carry the key state')
-    more = gen_ops(rng, 6)
+    if bool(getattr(c, 'dev', None)) != bool(dev):
+        ctx.diff('oracle', 'clone-dev', case, dev, getattr(c, 'dev', None), 'the clone of a dev / retail engine is not a dev / retail engine')
+    more = gen_ops(rng, 6) + [['T', 0, pyenv.rbytes(rng, 16).hex(), pyenv.rbytes(rng, 8).hex(), rng.randrange(2)]]
     before = dump_engine(e)
-    for op in more:
-        apply_impl(c, op)
+    err = None
+    try:
+        for op in more:
+            apply_impl(c, op)
+    except Exception as ex:
+        err = pyenv.errname(ex)
+    want_c = spec_machine(got, more, dev)
+    d = first_diff(want_c, dump_engine(c)) if err is None else (0, None, None)
+    if d:
+        ctx.diff('oracle', 'clone-behaviour', dict(case, more=more), fmt(d[1]) if err is None else 'no exception', fmt(d[2]) if err is None else err,
+                 f'slot {d[0]:#x}: key operations on the clone do not give the state the specification gives for an engine like the original')
     if dump_engine(e) != before:
         ctx.diff('oracle', 'clone-aliasing', dict(case, more=more), 'original unchanged', 'original changed',
                  'operations on the clone changed the original engine')
